@@ -256,17 +256,9 @@ def analyse(ctx, replace=None, only=None):
             R.require(len(exits) >= 1, "mem_swap: no exit state")
             for st in exits:
                 loc = "%s() exit" % f.name
-                it0 = st.notes.get("orig", {}).get("v:item1")
-                sz0 = st.notes.get("orig", {}).get("v:item_size")
-                curp = st.env.get("v:item1")
-                tail = Poly.const(0)
-                for (ln_, addr, size) in st.notes.get("memw_full", []):
-                    if addr is not None and curp is not None and addr == curp and size is not None:
-                        tail = size  # the remainder copy executed on this trace
-                ok = it0 and sz0 and curp is not None and eq(st, curp - Poly.atom(it0) + tail, Poly.atom(sz0))
+                ok, cov, sz0 = _swap_cover(f, num, st)
                 R.check(bool(ok), "COVER", "mem_swap:all-bytes", loc, "slices plus remainder cover exactly item_size bytes",
-                        "the sliced swap covers %r bytes of an element of %s bytes: part of the element is not exchanged (element sizes that are multiples of the slice)" %
-                        ((curp - Poly.atom(it0) + tail) if (it0 and curp is not None) else None, sz0))
+                        "the sliced swap covers %r bytes of an element of %s bytes: part of the element is not exchanged (element sizes that are multiples of the slice)" % (cov, sz0))
     R.require(n_ok >= 20, "only %d array-list bounds obligations discharged (confirmed: >= 24)" % n_ok)
     R.require(n_range >= 4, "only %d RANGE obligations generated" % n_range)
     R.require(n_seq >= 12, "only %d SEQ-LEN return states checked" % n_seq)
@@ -393,6 +385,36 @@ MUTANTS = [
 ]
 
 
+def _swap_cover(f, num, st):
+    """(ok, covered, size) for the sliced swap at an exit state: the cursor that walks the first element - the parameter
+    itself or a local initialised from it - has advanced, together with the remainder copy made at its final position, by
+    exactly item_size bytes"""
+    p1, psz = f.params[0]["n"], f.params[2]["n"]
+    tainted, et = RU.derives(f, lambda n: n["k"] == "var" and n["n"] == p1)
+    dests = set()
+    for e in f.calls({"memcpy", "__builtin_memcpy", "__builtin___memcpy_chk"}):
+        x = RU.uncast(f, RU.arg(f, e.node, 0))
+        while x is not None and x["k"] in ("cast", "decay"):
+            x = f.d(x["a"][0])
+        if x is not None and x["k"] == "var" and (x["n"] == p1 or x["n"] in tainted):
+            dests.add(x["n"])
+    if len(dests) != 1:
+        return False, None, None
+    cv = list(dests)[0]
+    o = st.notes.get("orig", {})
+    start = Poly.atom(o["v:" + p1]) if o.get("v:" + p1) else st.env.get("v:" + p1)
+    size = Poly.atom(o["v:" + psz]) if o.get("v:" + psz) else st.env.get("v:" + psz)
+    curp = st.env.get("v:" + cv)
+    if start is None or size is None or curp is None:
+        return False, None, size
+    tail = Poly.const(0)
+    for (ln_, addr, sz_) in st.notes.get("memw_full", []):
+        if addr is not None and addr == curp and sz_ is not None:
+            tail = sz_  # the remainder copy executed on this trace
+    cov = curp - start + tail
+    return eq(st, cov, size), cov, size
+
+
 def mem_swap_cover(R, P):
     """COVER obligation for the sliced element swap (shared with C06)"""
     f = P.fn("aws_array_list_mem_swap")
@@ -406,14 +428,6 @@ def mem_swap_cover(R, P):
         return
     R.require(len(exits) >= 1, "mem_swap: no exit state")
     for st in exits:
-        it0 = st.notes.get("orig", {}).get("v:item1")
-        sz0 = st.notes.get("orig", {}).get("v:item_size")
-        curp = st.env.get("v:item1")
-        tail = Poly.const(0)
-        for (ln_, addr, size) in st.notes.get("memw_full", []):
-            if addr is not None and curp is not None and addr == curp and size is not None:
-                tail = size
-        ok = it0 and sz0 and curp is not None and eq(st, curp - Poly.atom(it0) + tail, Poly.atom(sz0))
+        ok, cov, sz0 = _swap_cover(f, num, st)
         R.check(bool(ok), "COVER", "mem_swap:all-bytes", "%s() exit" % f.name, "slices plus remainder cover exactly item_size bytes",
-                "the sliced swap covers %r bytes of an element of %s bytes: part of the element is not exchanged (element sizes that are multiples of the slice)" %
-                ((curp - Poly.atom(it0) + tail) if (it0 and curp is not None) else None, sz0))
+                "the sliced swap covers %r bytes of an element of %s bytes: part of the element is not exchanged (element sizes that are multiples of the slice)" % (cov, sz0))
